@@ -12,7 +12,8 @@ THEOREMS = [(M, "NQ.C12." + n) for n in [
     "exactly_once", "exactly_once_count", "consumed_by_oldest_in_order", "consumed_by_head",
     "retired_iff_complete", "consume_effect", "keep_only_when_free", "unit_never_overwritten",
     "wait_sound", "handlePending_quiescent", "scenario_nonvacuous", "measure_overtakes_deferred_keep",
-    "rejected_issue_unchanged", "queued_requests_were_issued"]]
+    "rejected_issue_unchanged", "queued_requests_were_issued", "busy_virtual_defers",
+    "one_communication_qubit_defers"]]
 MQ = "NetqasmVerif.Props.QlinkObligations"
 THEOREMS += [(MQ, "NQ.Qlink." + n) for n in ["response_conversion_copies_every_field", "basis_conversion_exact",
                                              "bell_state_verbatim"]]
@@ -60,6 +61,10 @@ TRUSTED = [
     "_wait_to_handle_epr_responses as no-op, _execute_command yielding before delegating)",
 ]
 ASSUMPTIONS = [
+    "link-layer behaviours explored: distinct physical ids per pair AND one communication qubit (every keep "
+    "response carries the same logical_qubit_id; keep requests of the sequential kind, one at a time); globally "
+    "unique create ids AND per-link numbering (equal (create_id, sequence_number) on different remote nodes). "
+    "A response is identified on the wire by (remote node, create id, sequence number, direction)",
     "faults at the environment boundary are modelled as the action `rejected`: a create_epr/recv_epr whose call "
     "into the network stack (put, get_purpose_id) raised changes nothing (issuing is atomic with the stack's "
     "acceptance); the raising subroutine stays registered, as in the code",
@@ -182,10 +187,11 @@ def run(ctx):
         scs = [H.gen_scenario(rng), H.gen_scenario(rng, mixed_roles=(i % 2 == 0))]
         for r in scs[1].resps:
             r.uid += 1000
+            r.cid += 1000
         toks = H.interleave(rng, H.random_schedule(scs[0], rng, early=rng.choice([0, 1, 2])),
                             H.random_schedule(scs[1], rng, early=rng.choice([0, 1, 2])))
         _run_two(ctx, res, H, scs, toks)
-    n_random = 9000 if ctx.thorough else 1300
+    n_random = 9000 if ctx.thorough else 1000
     for i in range(n_random):
         if len(res.failures) >= MAX_FAILURES:
             break
@@ -194,7 +200,7 @@ def run(ctx):
         toks = H.random_schedule(sc, rng)
         _run_case(ctx, res, H, sc, toks, "rnd")
     # create and receive roles mixed on ONE socket, responses arriving before their instruction ran
-    n_mixed = 3000 if ctx.thorough else 400
+    n_mixed = 3000 if ctx.thorough else 350
     for i in range(n_mixed):
         if len(res.failures) >= MAX_FAILURES:
             break
@@ -202,6 +208,21 @@ def run(ctx):
         toks = H.random_schedule(sc, rng, early=rng.choice([0, 1, 1, 2, 3]))
         _run_case(ctx, res, H, sc, toks, "mix")
         res.count("mixed-roles-one-socket")
+    # link-layer behaviours: ONE communication qubit (every keep response carries the same physical id;
+    # sequential keep requests whose pairs share a virtual qubit) and per-link numbering (responses of two
+    # remote nodes carry equal (create_id, sequence_number))
+    n_link = 4000 if ctx.thorough else 500
+    for i in range(n_link):
+        if len(res.failures) >= MAX_FAILURES:
+            break
+        if i % 2 == 0:
+            sc = H.gen_scenario(rng, one_comm=True, per_link=(i % 4 == 0))
+            res.count("link:one-communication-qubit")
+        else:
+            sc = H.gen_scenario(rng, per_link=True, two_remotes=True, mixed_roles=False)
+            res.count("link:per-link-numbering-two-remotes")
+        toks = H.random_schedule(sc, rng, early=rng.choice([0, 0, 1, 2]))
+        _run_case(ctx, res, H, sc, toks, "lnk")
     # faults at the environment boundary: the network stack refuses a request (put raises) or does not
     # know the socket (get_purpose_id raises) inside one subroutine; the others go on using the socket
     n_fault = 2000 if ctx.thorough else 350
@@ -219,7 +240,8 @@ def run(ctx):
     for i in range(n_small):
         if len(res.failures) >= MAX_FAILURES:
             break
-        sc = H.gen_scenario(rng, max_reqs=2, max_pairs=2 if i % 2 else 3, small=True, mixed_roles=(i % 3 == 0))
+        sc = H.gen_scenario(rng, max_reqs=2, max_pairs=2 if i % 2 else 3, small=True, mixed_roles=(i % 3 == 0),
+                            one_comm=(i % 3 == 1), per_link=(i % 2 == 0))
         k = 0
         for toks in H.exhaustive_schedules(sc, cap):
             _run_case(ctx, res, H, sc, toks, "exh")
